@@ -22,6 +22,7 @@ LIST_NAMES = ["types", "absinterfaces", "procedures", "submodprocedures", "modul
 # label -> ("file", k) | ("fixed", k) | ("idset", k): the phases of Out/Project.v [pipeline]
 PH = {
     "parse": ("file", 0), "prereg-module": ("file", 45), "prereg-submodule": ("file", 46), "topo": ("idset", 0),
+    "type-topo": ("idset", 2), "graph-collect": ("fixed", 4),
     "corr-set": ("fixed", 1), "corr-proc": ("file", 1), "corr-program": ("file", 2), "corr-blockdata": ("file", 3),
     "prune-set": ("fixed", 2), "prune-proc": ("file", 4), "prune-program": ("file", 5),
     "prune-blockdata": ("file", 6), "glue": ("fixed", 3), "md": ("file", 7), "mdx": ("file", 8),
@@ -34,14 +35,17 @@ for _j in range(N_LISTS):
     PH[f"rwrite-{_j}"] = ("file", 33 + _j)
 N_SEGS = 47
 N_SETS = 8
-N_IDSETS = 2
+N_IDSETS = 3
 # position of every phase in the pipeline (to check that the observed run walks them in that order)
 PIPE = ([("file", 0), ("file", 45), ("file", 46), ("idset", 0), ("fixed", 1), ("file", 1), ("file", 2), ("file", 3),
-         ("fixed", 2), ("file", 4), ("file", 5), ("file", 6), ("fixed", 3), ("file", 7), ("file", 8)]
-        + [("file", 9 + j) for j in range(N_LISTS)] + [("idset", 1), ("fixed", 5)]
+         ("idset", 2), ("fixed", 2), ("file", 4), ("file", 5), ("file", 6), ("fixed", 3), ("file", 7), ("file", 8)]
+        + [("file", 9 + j) for j in range(N_LISTS)] + [("fixed", 4), ("idset", 1), ("fixed", 5)]
         + [("file", 21 + j) for j in range(N_LISTS)] + [("fixed", 6)]
         + [("file", 33 + j) for j in range(N_LISTS)] + [("fixed", 7)])
 PIPE_POS = {p: i for i, p in enumerate(PIPE)}
+# id-set phases that are interleaved with other loops (the type toposorts inside container.correlate, the
+# set iterations of graph construction): their requests must be repeats, so their position does not matter
+FLOATING = {("idset", 1), ("idset", 2)}
 
 
 class Trace:
@@ -61,6 +65,7 @@ class Trace:
         self.page_label = {}
         self.keep = []
         self.topo_seen = False
+        self.uncovered = []
 
     def rel(self, p):
         try:
@@ -135,6 +140,7 @@ class Instrument:
         orig_get = sf.NameSelector.get_name
 
         def spy(sel, item):
+            is_new = item not in sel._items
             r = orig_get(sel, item)
             k = id(item)
             if k not in tr.objs:
@@ -154,7 +160,14 @@ class Instrument:
                     lab_, fkey = tr.page_label[id(pg)]
                     label = ("rsearch-%d" if tr.stage == "docinit" else "rwrite-%d") % lab_
                 elif label == "docinit-other":
-                    label = "graphs"
+                    # graph construction; "_ = x.ident" written in graph_all itself is its collecting loop
+                    caller = sys._getframe(1).f_back
+                    label = "graph-collect" if caller is not None and caller.f_code.co_name == "graph_all" \
+                        else "graphs"
+            if is_new and PH.get(label, ("?",))[0] == "idset":
+                # the first request of an entity inside a loop whose order comes from a set of objects
+                tr.uncovered.append((label, str(item.get_dir()), str(item.name), getattr(item, "obj", "?"),
+                                     tr.owner(item)))
             key = (label, fkey, k)
             if key not in tr.seen:
                 tr.seen.add(key)
@@ -221,6 +234,14 @@ class Instrument:
                     return orig_topo(*a, **kw)
                 finally:
                     tr.label = old
+            if tr.stage == "correlate":
+                # the toposort of a scope's derived types, inside container.correlate
+                old = (tr.label, tr.file)
+                tr.label, tr.file = "type-topo", None
+                try:
+                    return orig_topo(*a, **kw)
+                finally:
+                    tr.label, tr.file = old
             return orig_topo(*a, **kw)
         self.patch(tp, "toposort_flatten", topo)
 
@@ -332,8 +353,14 @@ def traced_run(files, order, options=None, unsorted=False):
     with F.Work(files) as w:
         tr = Trace(w.root)
         tr.enum, tr.forced = [], []
-        with Instrument(tr, order, unsorted):
-            data, out, err = F.full_run_inprocess(w.root, options or {})
+        import ford.graphs as fg
+        flag = fg.graphviz_installed
+        fg.graphviz_installed = False        # graphs are built (Documentation has its own flag), dot is not run
+        try:
+            with Instrument(tr, order, unsorted):
+                data, out, err = F.full_run_inprocess(w.root, options or {})
+        finally:
+            fg.graphviz_installed = flag
     # stable entity keys: base key + occurrence number in order of first request
     occ, key_of = {}, {}
     for k in tr.first:
@@ -358,11 +385,11 @@ def traced_run(files, order, options=None, unsorted=False):
             idsets.setdefault(ph[1], []).append(key_of[k])
     return {"err": err, "log": out, "enum": tr.enum, "forced": tr.forced, "unsorted": bool(unsorted),
             "ents": ents, "final": final, "segs": segs, "fixed": fixed, "idsets": idsets,
-            "seq": seq, "unknown": sorted(set(unknown))}
+            "seq": seq, "unknown": sorted(set(unknown)), "uncovered": sorted(set(tr.uncovered))}
 
 
 def phases_in_pipeline_order(seq):
-    pos = [PIPE_POS[p] for p in seq]
+    pos = [PIPE_POS[p] for p in seq if p not in FLOATING]
     return all(a <= b for a, b in zip(pos, pos[1:]))
 
 
